@@ -576,7 +576,7 @@ func constOf0(c *eng.Ctx, pkg, name string) int64 { return constOf(c, pkg, name)
 func shiftRange(c *eng.Ctx, f *ssa.Function) {
 	var n ssa.Value
 	for _, prm := range f.Params {
-		if prm.Name() == "numOfNode" {
+		if eng.ParamName(prm) == "numOfNode" {
 			n = prm
 		}
 	}
@@ -588,7 +588,7 @@ func shiftRange(c *eng.Ctx, f *ssa.Function) {
 		c.Undecided("replicaIndex: expected one return")
 	}
 	shiftRangeOf(c, f, rets[0], eng.RetVal(rets[0], 0), n,
-		func(v ssa.Value) bool { pr, ok := v.(*ssa.Parameter); return ok && pr.Name() == "firstReplicaIndex" },
+		func(v ssa.Value) bool { pr, ok := v.(*ssa.Parameter); return ok && eng.ParamName(pr) == "firstReplicaIndex" },
 		func(v ssa.Value) bool { _, ok := v.(*ssa.Parameter); return ok })
 }
 
